@@ -38,7 +38,10 @@ def _lhs_vars(lhs: ast.expr) -> Set[str]:
     """Return set of assigned variables in the lhs of an assignment statement."""
 
     def get_id(e):
-        assert isinstance(e, ast.Name), "Only simple assignments supported."
+        if not isinstance(e, ast.Name):
+            raise ValueError(
+                f"ERROR: Only simple assignments supported.\nat: Line {getattr(e, 'lineno', '?')}"
+            )
         return e.id
 
     if isinstance(lhs, ast.Tuple):
